@@ -64,8 +64,13 @@ def run_shard(spec, acc):
         for i in range(spec["n"]):
             permutations(rnd, acc)
     elif k == "enumeration":
+        from .. import lazyscan
+
         for i in range(spec["n"]):
             enumeration(rnd, acc, sample=(i == 0))
+            # two scans of the same tree: one result used at once, the other only after the tree was removed / rewritten
+            # or the working directory changed
+            lazyscan.late_use_case(rnd, acc, "C15", {})
     elif k == "hashseeds":
         hashseeds(spec["seeds"], acc)
     else:
@@ -555,13 +560,17 @@ def replay(case, acc):
         hashseeds(8, acc)
     elif case["kind"] == "layer-two-architectures":
         two_architectures_case(case, acc)
+    elif case["kind"] == "late-use":
+        from .. import lazyscan
+
+        lazyscan.replay(case, acc, "C15", {})
     else:
         acc.mark_inconclusive(f"case kind {case['kind']} is replayed by re-running the check with the recorded seed")
 
 
 def floors(acc, tier):
     why = []
-    for c, n in (("purity_snapshots", 5000), ("history_comparisons", 3000), ("interleavings", 50), ("re_applications", 500), ("evaluations_on_another_architecture", 100), ("layer_rule_reapplied_with_unmentioned_regex_layer", 100), ("enumeration_trees_with_symlinked_package", 5), ("enumeration_trees_with_file_beside_package", 5), ("permuted_anything_rules_with_nested_subjects", 20), ("argument_permutations", 300), ("enumerations_shuffled", 50), ("hash_seed_runs", 8), ("threaded_evaluations", 100)):
+    for c, n in (("purity_snapshots", 5000), ("history_comparisons", 3000), ("interleavings", 50), ("re_applications", 500), ("evaluations_on_another_architecture", 100), ("layer_rule_reapplied_with_unmentioned_regex_layer", 100), ("enumeration_trees_with_symlinked_package", 5), ("enumeration_trees_with_file_beside_package", 5), ("permuted_anything_rules_with_nested_subjects", 20), ("argument_permutations", 300), ("enumerations_shuffled", 50), ("hash_seed_runs", 8), ("threaded_evaluations", 100), ("scan_results_first_used_after_a_change", 20)):
         if acc.counters[c] < n:
             why.append(f"{c}: only {acc.counters[c]}")
     return why
